@@ -42,7 +42,7 @@ def rand128(rng, in_range=True):
         k = rng.randrange(0, 128)
         v = rng.choice([1, -1]) * ((1 << k) + rng.randrange(-5, 6))
     elif mode == 6:  # calendar-sized: seconds within a few thousand years
-        v = rng.randrange(-60052752000, 255485232000) * T64 + rng.randrange(T64)
+        v = rng.randrange(-60052752000, 255485145600) * T64 + rng.randrange(T64)
     else:
         v = rng.randrange(-(1 << 100), 1 << 100)
     if in_range:
